@@ -642,7 +642,8 @@ def mutateValue (X : Ctx) (p : MV) : M Ref := do
   let r2 ← mvConstruct X p v1                              -- 3, 4
   let r3 ← mvAttrs X p r2.1 r2.2.1 r2.2.2                  -- 5
   let v4 ← mvApply p.transform r3.1                        -- 6
-  mvAttrTransforms X p v4 r3.2                             -- 7
+  -- (what a transform returns is private only if it is the private value it was given)
+  mvAttrTransforms X p v4 (r3.2 && v4 == r3.1)             -- 7
 
 /-- `prepare_attr_value(attr_spec, instance, value, attrs)`. -/
 def prepareAttrValue (X : Ctx) (d : AttrDecl) (v : Ref) (attrs : List (Nat × Ref)) : M Ref := do
